@@ -2,6 +2,7 @@
 paths of `parse_args` with its helpers inlined and its literal tables unrolled -- so it does not matter whether an
 option is declared by a call of its own, through a helper called once per language, or from a table of (flags,
 keywords) rows."""
+import ast
 from .core import AnalysisError
 from .pysym import SymExec, subterms, show
 
@@ -44,7 +45,27 @@ def cli_options(repo):
     mod = repo.module(REL)
     fn = mod.get('parse_args')
     best = []
-    for st, o in SymExec(fn, unroll=1, inline_also=('add_common_parser_arguments',)).run():
+    # the options may be declared by parse_args itself or by helpers of the module it calls (one per sub-command, a builder
+    # that returns the parser, ..): all of them are read in place
+    helpers = tuple(f_.name for f_ in mod.tree.body if isinstance(f_, ast.FunctionDef) and f_.name != fn.name)
+    # args = build_parser(f).parse_args(argv): the helper call in receiver position gets a name of its own, so that the
+    # walker reads the helper's statements where it is called
+    for blk in [n_.body for n_ in ast.walk(fn) if hasattr(n_, 'body') and isinstance(getattr(n_, 'body'), list)]:
+        for i_, st_ in enumerate(list(blk)):
+            v_ = st_.value if isinstance(st_, (ast.Assign, ast.Expr, ast.Return)) else None
+            if isinstance(v_, ast.Call) and isinstance(v_.func, ast.Attribute) and isinstance(v_.func.value, ast.Call) \
+                    and isinstance(v_.func.value.func, ast.Name) and v_.func.value.func.id in helpers and not getattr(st_, '_hoisted', False):
+                tmp = '_%s__value' % v_.func.value.func.id
+                pre = ast.copy_location(ast.Assign(targets=[ast.Name(id=tmp, ctx=ast.Store())], value=v_.func.value), st_)
+                v_.func.value = ast.copy_location(ast.Name(id=tmp, ctx=ast.Load()), v_.func.value)
+                ast.fix_missing_locations(pre)
+                pre._parent = getattr(st_, '_parent', None)
+                for n_ in ast.walk(pre):
+                    for c_ in ast.iter_child_nodes(n_):
+                        c_._parent = n_
+                st_._hoisted = True
+                blk.insert(blk.index(st_), pre)
+    for st, o in SymExec(fn, unroll=1, inline_also=helpers).run():
         opts = []
         for e in st.events:
             if e[0] != 'call':
